@@ -192,7 +192,11 @@ def oracle(doc, genes):
             got = gene.get_allele(nm)
             owners = [an for an, al in gene.alleles.items() if nm in al.minors or gene.removed.get(nm) in al.minors]
             # a left fusion that carries a function-altering variant of its own is a database allele like any other
-            if is_left and not any(len(e) > 3 and e[3] == "functional" for e in a["mutations"]):
+            # (counted in THIS build: a variant the alignment of the build cannot place - inside an alignment gap, outside
+            # the named regions - is dropped by the loader with a warning, and the fusion is then bare in this build)
+            placed = {(v[3], v[4]) for v in gene.mutations.values()}
+            if is_left and not any(len(e) > 3 and e[3] == "functional" and isinstance(e[0], int) and (e[0] - 1, e[1]) in placed
+                                   for e in a["mutations"]):
                 continue
             if got is None:
                 why.append(f"{tag}: database allele {nm} is not reachable by name")
